@@ -251,6 +251,8 @@ def run(m: Model, r: Report, tier: str) -> None:
     tr.requeue_order(r, "R7", ack, m.require_function(f"{DOIP}.DoIPConnection._read_worker"), "_read_queue",
                      skips_deliverable=_eval([x for x in _filters(ack)[0] if "isinstance(" in ast.unparse(x.test)][0].test, ack, _P("DiagnosticMessage")))
     tr.requeue_before_exit(r, "R7", ack, "self._read_queue", ("DoIPNegativeAckError",))
+    tr.requeue_on_cancellation(r, "R7", ack, "self._read_queue")
+    tr.requeue_on_cancellation(r, "R7", diag, "self._read_queue")
     tr.requeue_before_exit(r, "R7", diag, "self._read_queue")
     tr.requeue_before_exit(r, "R7", ra, "self._read_queue", ("DoIPRoutingActivationDeniedError",))
 
